@@ -51,6 +51,13 @@ def run(job):
     if verif_hooks is not None and hasattr(verif_hooks, "reset"):
         verif_hooks.reset()
     out = {"id": job["id"]}
+    if job.get("pre_src"):   # compile an unrelated program first, in this very process (C19: second in-process compile)
+        try:
+            compile_dsl_source(job["pre_src"], use_json=True)
+        except BaseException:  # noqa: BLE001
+            pass
+        if verif_hooks is not None and hasattr(verif_hooks, "reset"):
+            verif_hooks.reset()
     old_cwd = os.getcwd()
     try:
         if job.get("cwd"):
